@@ -3,6 +3,7 @@
 Decides: case-insensitivity of every name-keyed container and comparator, first-occurrence-wins insertion and intact raw
 value, writer/reader token-table agreement, registration of every concrete header type, rounding of the quality value.
 Round-trip equality over all representable values is value-level and not decided."""
+import re
 from .. import cfg, lib, facts, tables
 from ..facts import AnalysisBroken, strip_tmpl
 
@@ -85,11 +86,11 @@ def run(ck):
               "stores with %s" % names if names == ["insert"] else "stores with %s: a later header with the same name replaces the first one" % names)
     hs = lib.single(prog, H + "Private::HeadersStep::apply")
     ar = [e for e in hs.calls(lambda e: (e.get("callee") or "") == HH + "Collection::addRaw")]
-    loops = [b for b in hs.blocks.values() if b.term and b.term.get("k") == "while"]
-    ck.require(ar and loops, "addRaw / header loop not found in HeadersStep::apply")
-    outer = max(loops, key=lambda b: b.id)
-    # every iteration of the header loop that reaches the CRLF advance passed addRaw: paths from loop body entry to the back edge without addRaw
-    body = outer.succs[0]
+    ck.require(ar, "addRaw not found in HeadersStep::apply")
+    hl = cfg.innermost_loop(hs, ar[0].block)
+    ck.require(hl is not None, "header loop (the loop around addRaw) not found in HeadersStep::apply")
+    hdr16, body16 = hl
+    # every iteration of the header loop that comes round again passed addRaw
     miss = []
 
     def step(st, ev):
@@ -100,24 +101,49 @@ def run(ck):
         return st
 
     def edge(st, blk, k, succ):
-        if succ == outer.id:
+        if succ not in body16:
+            return None
+        if succ == hdr16:
             miss.append(blk.id)
             return None
         return st
-    cfg.run_automaton(hs, 0, step, edge=edge, start=body)
-    # the raw copy's value: the std::string local built from the cursor that is moved into the Raw passed to addRaw
-    vd = [d for d in hs.events("decl") if "string" in (d.get("type") or "") and "cursor.offset(" in " ".join(a.get("t") or "" for a in d.get("cargs", []))
-          and any(d["var"] in (x.get("t") or "") for a_ in ar for x in [a_]) ]
-    if not vd:
-        vd = [d for d in hs.events("decl") if "string" in (d.get("type") or "") and "cursor.offset(" in " ".join(a.get("t") or "" for a in d.get("cargs", []))
-              and d.block == ar[0].block]
-    vd = vd[-1:]
-    same = bool(vd) and "cursor.offset(start)" in ((vd[0].get("init") or {}).get("t") or "") + " ".join(a.get("t") or "" for a in vd[0].get("cargs", [])) \
-        and "cursor.diff(start)" in ((vd[0].get("init") or {}).get("t") or "") + " ".join(a.get("t") or "" for a in vd[0].get("cargs", []))
-    pr = [e for e in hs.calls(lambda e: (e.get("callee") or "") == HH + "Header::parseRaw")]
-    same = same and all("cursor.offset(start)" in (e["args"][0].get("t") or "") and "cursor.diff(start)" in (e["args"][1].get("t") or "") for e in pr) and bool(pr)
+    for s_ in hs.blocks[hdr16].succs:
+        if s_ is not None and s_ in body16 and s_ != hdr16:
+            cfg.run_automaton(hs, 0, step, edge=edge, start=s_)
+    # the typed parser, the cookie parsers and the raw copy are all handed the same (pointer, length) expressions
+    norm = lambda t: re.sub(r"\s+", "", t or "")
+    pairs = {}
+    for e in hs.events("call"):
+        c = e.get("callee") or ""
+        if c in (HH + "Header::parseRaw", H + "CookieJar::addFromRaw", H + "Cookie::fromRaw") and len(e.get("args", [])) >= 2:
+            pairs[c.rsplit("::", 1)[1] + "@%s" % e.get("l")] = (norm(e["args"][0].get("t")), norm(e["args"][1].get("t")))
+    pr = [k for k in pairs if k.startswith("parseRaw@")]
+    rawpair = None
+    real = lambda args: [x for x in (args or []) if not x.get("dflt")]
+    # the value operand of the Header::Raw handed to addRaw: a moved string local, or a string built in place
+    raws = [c_ for c_ in hs.events("construct") if (c_.get("cls") or "") == HH + "Raw" and not c_.get("copymove") and
+            any(c_.block == a_.block and c_.idx < a_.idx for a_ in ar)]
+    for rc in raws:
+        ra = real(rc.get("args"))
+        if len(ra) < 2:
+            continue
+        val = ra[1]
+        mv = (val.get("moved") or {}).get("v") or val.get("v")
+        if not mv:
+            m_ = re.match(r"^(?:std::move\()?\s*([A-Za-z_]\w*)\s*\)?$", val.get("t") or "")
+            mv = m_.group(1) if m_ else None
+        if mv:
+            for d in hs.events("decl"):
+                if d.get("var") == mv and len(real(d.get("cargs"))) == 2:
+                    rawpair = tuple(norm(x.get("t")) for x in real(d["cargs"]))
+        else:
+            for c_ in hs.events("construct"):
+                if (c_.get("cls") or "").startswith("std::basic_string") and len(real(c_.get("args"))) == 2 and norm(c_.get("t")) == norm(val.get("t")):
+                    rawpair = tuple(norm(x.get("t")) for x in real(c_["args"]))
+    same = bool(pr) and rawpair is not None and all(p_ == rawpair for p_ in pairs.values())
     ck.ob("C16-R2", "HeadersStep/always-raw-copy", not miss, ar[0].loc, hs, "every header line (registered or not) reaches addRaw" if not miss else "a header line can be completed without storing its raw copy")
-    ck.ob("C16-R2", "HeadersStep/same-value-bytes", same, vd[0].loc if vd else hs.loc, hs, "typed parser and raw copy both get (cursor.offset(start), cursor.diff(start))")
+    ck.ob("C16-R2", "HeadersStep/same-value-bytes", same, ar[0].loc, hs, "typed parser, cookie parsers and raw copy all get %s" % (rawpair,) if same else
+          "the value handed to the typed parser and the raw copy differ: %s vs raw %s" % (sorted(set(pairs.values())), rawpair))
 
     # ---------------- R3 ----------------
     def agree(name, writer, reader, insensitive, allow_unmapped=()):
